@@ -59,6 +59,16 @@ CHECKS = {
              "parity with 0-3 operands, and .even/.odd/.align m for every m in 1..64 at every residue.",
         note="Trusted: Python codecs for utf-8/koi8-r/latin-1/cp866; for bk only ASCII, U+0080-9F and KOI8 letters (rest is C14).",
         design="4/C06"),
+    "C12": dict(
+        category="exploration",
+        technique="Hypothesis link-expression programs, differential against a reference assembler with affine base tracking",
+        text="Programs of 1-3 files whose link expression is K + sum k_i*(L_i - L_j) in eight spellings (direct, difference symbols, alias "
+             "symbols, shifts, division, split coefficients), as .link anywhere in the first file or a leading '. =', together with the "
+             "no-directive, two-directive and genuinely self-dependent cases, and '. =' skips of every size 0..64 forward / 1..64 backward "
+             "in four spellings. The reference tracks the coefficient of the base exactly, so it knows which expressions must assemble "
+             "(with which value) and which must be refused (and with which identifier).",
+        note="Trusted: vf/model.py + vf/ref/expr.py affine arithmetic; identifiers address-conflict / recursive-definition / value-out-of-bounds.",
+        design="4/C12"),
     "C14": dict(
         category="exploration",
         technique="exhaustive enumeration (256 bytes, 0x110000 code points) + Hypothesis strings against Python's koi8-r/ASCII and the round-trip law",
@@ -110,7 +120,7 @@ def main():
             "guard": "PDPY11_VERIF",
             "enable": "export PDPY11_VERIF=1 before importing pdpy11 (checks set it themselves where they need the trace)",
             "baseline_off_cmd": "cd /repo && env -u PDPY11_VERIF /venv/bin/python -m pytest -ra -q -p no:cacheprovider --timeout=900 --continue-on-collection-errors",
-            "source_commits": [],
+            "source_commits": ["926ef0e"],
             "add_only": True,
         },
         "engines": [{
